@@ -811,7 +811,12 @@ func (w *_assemblerRepr) AssignBool(b bool) error {
 func (w *_assemblerRepr) assignUInt(uin datamodel.UintNode) error {
 	switch stg := reprStrategy(w.schemaType).(type) {
 	case schema.UnionRepresentation_Kinded:
-		return w.asKinded(stg, datamodel.Kind_Int).(*_assemblerRepr).assignUInt(uin)
+		asm, ok := w.asKinded(stg, datamodel.Kind_Int).(*_assemblerRepr)
+		if !ok {
+			// No member of the union is represented as an integer: report that like AssignInt does.
+			return w.asKinded(stg, datamodel.Kind_Int).AssignNode(uin)
+		}
+		return asm.assignUInt(uin)
 	case schema.EnumRepresentation_Int:
 		uin, err := uin.AsUint()
 		if err != nil {
